@@ -204,7 +204,7 @@ def multi_sweep(tier, overlap):
     out = []
     for i, (a, b) in enumerate(pairs):
         out.append(job("MultiRun", f"multi_{'ov' if overlap else 'seq'}_{i}", multi_consts(overlap, a, b), ["Inv1", "Inv2", "FreshStart"],
-                       properties=["Frame"], workers=3, heap="6g"))
+                       properties=["Frame"], view="View", workers=4, heap="6g"))
     return out
 
 
@@ -336,7 +336,7 @@ def plan_for(prop, tier, seed):
         P["rule"] = "non-trivial = sequential API calls recorded (12 per builder input, one failing position each)"
     elif prop == "C15":
         P["design"] = multi_sweep(tier, False)
-        P["families"] = [fam("multi_seq", shards=6), fam("multi_exh", shards=6, sample=1 if T else 6, focus="seq")]
+        P["families"] = [fam("multi_seq", shards=6, count=20000 if T else 1500), fam("multi_exh", shards=6, sample=1 if T else 40, focus="seq")]
         P["report"] = {"*"}
         P["nontrivial_keys"] = ["fresh_compare"]
         P["rule"] = "histories of 2-3 runs on one graph value; non-trivial = runs re-executed alone on a freshly built graph and compared event by event"
@@ -357,7 +357,7 @@ def plan_for(prop, tier, seed):
         P["rule"] = "non-trivial = builds of graphs with edges; the hook counter of rank-queue pops is compared with n*n+n"
     elif prop == "C20":
         P["design"] = multi_sweep(tier, True)
-        P["families"] = [fam("multi_overlap", shards=6), fam("multi_exh", shards=6, sample=1 if T else 6, focus="overlap")]
+        P["families"] = [fam("multi_overlap", shards=6, count=20000 if T else 1500), fam("multi_exh", shards=6, sample=1 if T else 160, focus="overlap")]
         P["report"] = {"*"}
         P["nontrivial_keys"] = ["fresh_compare"]
         P["rule"] = "two overlapping runs on one graph; non-trivial = runs re-executed alone on a fresh graph and compared event by event"
@@ -371,6 +371,6 @@ def plan_for(prop, tier, seed):
     if prop in ("C01", "C02", "C03", "C05", "C08"):
         P["impl"] = P.get("impl", []) + [dict(kind="stream", index=off + i) for i in range(15 if (T or prop == "C05") else 3)]
     if prop in ("C11", "C12", "C13", "C18"):
-        P["impl"] = [dict(kind="builder", family="builder_exh", sample=4 if T else 40), dict(kind="builder", family="dense"),
+        P["impl"] = [dict(kind="builder", family="builder_exh", sample=4 if T else 40), dict(kind="builder", family="dense", max_n=14 if T else 12),
                      dict(kind="builder", family="builder_rand", count=400 if T else 100)]
     return P
